@@ -49,7 +49,28 @@
    C08_partial_start (outside the two findings, every listed set and every history),
    C08_start_redelivery_silent (the replay of the listed objects fires nothing and leaves the
    snapshot untouched, for EVERY binding; environment assumption: the objects the informer
-   delivers at its start are the objects the initial List returned) and C08_refuted_start. *)
+   delivers at its start are the objects the initial List returned) and C08_refuted_start.
+
+   The binding as DECLARED.  "Listed in executeHookOnEvent" and "all subsets of {Added,
+   Modified, Deleted}" speak of the list the user writes in the hook configuration.  A v1
+   binding has two keys for it, executeHookOnEvent and the deprecated watchEvent, each absent
+   or present with any list (the empty one included), also both ([decl]).
+   HookConfigV1.ConvertAndCheck (config_v1.go) turns the declaration into
+   MonitorConfig.EventTypes ([effective_types]); the specification reads the list off the
+   declaration ([declared_types]: executeHookOnEvent whenever the key is present - `[]` is the
+   documented snapshot-only binding -, else the former name, else the documented default, all
+   three) and has the clause [only_listed] for "only if its watch-event type is listed in
+   executeHookOnEvent".  [P_decl] = [P_start] w.r.t. the declared list + that clause.
+
+     C08_full_statement_declared := forall jq d filter listed (h : list dstep), oracle_canonical .. ->
+         exists c0, load_existed jq (mkConfig (effective_types d) filter) listed [] = Some c0 /\
+                    P_decl jq d filter listed (map change_of h) (obs of run_d from c0 over h) = true.
+
+   C08_effective_types_as_declared, C08_execute_hook_on_event_has_priority,
+   C08_declared_only_listed and C08_only_listed_holds (every oracle, filter, cache and history:
+   no finding touches the event-type gate), C08_snapshot_only_binding, C08_partial_declared
+   (every declaration = every pair of absent / any list, outside the two findings) and
+   C08_refuted_declared. *)
 From Verif Require Import Common Json C08_Model C08_Spec C08_Proofs.
 
 Definition C08_full_statement : Prop :=
@@ -289,6 +310,118 @@ Proof.
   - vm_compute; reflexivity.
   - intros filter; destruct filter; split; vm_compute; reflexivity.
 Qed.
+
+(* ---- the binding as declared: executeHookOnEvent / watchEvent ---- *)
+
+Definition C08_full_statement_declared : Prop :=
+  forall jq d filter listed (h : list dstep),
+    oracle_canonical jq (listed_steps listed ++ map change_of h) ->
+    exists c0, load_existed jq (mkConfig (effective_types d) filter) listed [] = Some c0 /\
+      P_decl jq d filter listed (map change_of h)
+             (map to_obs (run_d jq (mkConfig (effective_types d) filter) c0 h)) = true.
+
+(* the conversion of the hook configuration (config_v1.go) produces, for EVERY declaration -
+   either key absent or present with any list -, the list the specification reads off the
+   declaration, and the informer's gate decides by membership in it *)
+Theorem C08_effective_types_as_declared : forall d,
+  effective_types d = declared_types d /\
+  forall filter t, should_fire (mkConfig (effective_types d) filter) t = listed (declared_types d) t.
+Proof. exact effective_as_declared. Qed.
+Print Assumptions C08_effective_types_as_declared.
+
+(* executeHookOnEvent present (any list, also the empty one): it IS the effective list,
+   whatever the deprecated key says beside it *)
+Theorem C08_execute_hook_on_event_has_priority : forall l w,
+  effective_types (mkDecl (Some l) w) = l.
+Proof. exact exec_priority. Qed.
+Print Assumptions C08_execute_hook_on_event_has_priority.
+
+(* "triggers the hook only if its watch-event type is listed in executeHookOnEvent": whenever
+   the key is present, for every oracle (also inside the findings' domains), every filter
+   setting, every cache and every history of deliveries in either form *)
+Theorem C08_declared_only_listed : forall jq d filter l c h,
+  d_exec d = Some l ->
+  Forall (fun r : cache * option event => forall ev, snd r = Some ev -> In (ev_type ev) l)
+         (run_d jq (mkConfig (effective_types d) filter) c h).
+Proof. exact declared_only_listed. Qed.
+Print Assumptions C08_declared_only_listed.
+
+(* the specification's clause [only_listed] holds of the model's observations, no hypothesis *)
+Theorem C08_only_listed_holds : forall jq d filter c h,
+  only_listed d (map to_obs (run_d jq (mkConfig (effective_types d) filter) c h)) = true.
+Proof. exact only_listed_model. Qed.
+Print Assumptions C08_only_listed_holds.
+
+(* the documented snapshot-only binding `executeHookOnEvent: []`: no delivery ever fires,
+   whatever watchEvent says, and (where the filter does not fail) the snapshot shows the
+   latest state of every object all the same *)
+Theorem C08_snapshot_only_binding : forall jq w filter,
+  (forall c h, Forall (fun r : cache * option event => snd r = None)
+                      (run_d jq (mkConfig (effective_types (mkDecl (Some []) w)) filter) c h)) /\
+  (forall h id,
+     let cfg := mkConfig (effective_types (mkDecl (Some []) w)) filter in
+     never_fails jq cfg (map change_of h) ->
+     option_map e_obj (c_get id (final_cache_d jq cfg [] h)) = latest id None (map change_of h)).
+Proof. exact snapshot_only_binding. Qed.
+Print Assumptions C08_snapshot_only_binding.
+
+(* the property for every declared binding - executeHookOnEvent absent or any list, watchEvent
+   absent or any list -, every set of objects that exist when it is enabled and every history
+   of deliveries, outside the two findings *)
+Theorem C08_partial_declared : forall jq d filter listed (h : list dstep),
+  oracle_canonical jq (listed_steps listed ++ map change_of h) ->
+  T_F8 jq filter (listed_steps listed ++ map change_of h) = false ->
+  T_F16 jq filter (listed_steps listed ++ map change_of h) = false ->
+  exists c0, load_existed jq (mkConfig (effective_types d) filter) listed [] = Some c0 /\
+    P_decl jq d filter listed (map change_of h)
+           (map to_obs (run_d jq (mkConfig (effective_types d) filter) c0 h)) = true.
+Proof. exact partial_declared. Qed.
+Print Assumptions C08_partial_declared.
+
+(* the full statement for declared bindings fails for the recorded reason F8 *)
+Theorem C08_refuted_declared :
+  exists jq d filter listed (h : list dstep) c0,
+    oracle_canonical jq (listed_steps listed ++ map change_of h) /\
+    T_F8 jq filter (listed_steps listed ++ map change_of h) = true /\
+    T_F16 jq filter (listed_steps listed ++ map change_of h) = false /\
+    load_existed jq (mkConfig (effective_types d) filter) listed [] = Some c0 /\
+    P_decl jq d filter listed (map change_of h)
+           (map to_obs (run_d jq (mkConfig (effective_types d) filter) c0 h)) = false.
+Proof. exact refuted_declared. Qed.
+Print Assumptions C08_refuted_declared.
+
+(* non-vacuity of the declaration theorems.  History: object 1 exists (replicas 3), the
+   informer replays it, it changes to replicas 4, object 2 appears, object 1 is deleted.
+   (1) `executeHookOnEvent: []` beside a leftover `watchEvent: [Added, Modified, Deleted]`:
+       nothing fires, the snapshot follows, P_decl holds - and P_decl REJECTS the observation
+       in which these deliveries fire as the watchEvent list would have it;
+   (2) only `watchEvent: [Added]`: exactly the Added fires;   (3) neither key: all fire;
+   (4) `executeHookOnEvent: [Deleted, Deleted]` beside `watchEvent: [Added]`: the Deleted fires. *)
+Example C08_declared_hyp_met :
+  let listed := [(1%N, o_rep 3)] in
+  let h := start_replay listed ++
+           [(Modified, 1%N, Plain (o_rep 4)); (Added, 2%N, Plain o_norep); (Deleted, 1%N, Tombstone 1%N (o_rep 4))] in
+  let run d := match load_existed jq_obj (mkConfig (effective_types d) true) listed [] with
+               | Some c0 => map to_obs (run_d jq_obj (mkConfig (effective_types d) true) c0 h)
+               | None => []
+               end in
+  let snap_only := mkDecl (Some []) (Some all3) in
+  T_F8 jq_obj true (listed_steps listed ++ map change_of h) = false /\
+  T_F16 jq_obj true (listed_steps listed ++ map change_of h) = false /\
+  d_exec snap_only = Some [] /\
+  map o_fired (run snap_only) = [[]; []; []; []] /\
+  map (fun o => map fst (o_snapshot o)) (run snap_only) = [[1]; [1]; [1; 2]; [2]]%N /\
+  P_decl jq_obj snap_only true listed (map change_of h) (run snap_only) = true /\
+  P_decl jq_obj snap_only true listed (map change_of h) (run (mkDecl None (Some all3))) = false /\
+  only_listed snap_only (run (mkDecl None (Some all3))) = false /\
+  map o_fired (run (mkDecl None (Some [Added]))) = [[]; []; [Added]; []] /\
+  P_decl jq_obj (mkDecl None (Some [Added])) true listed (map change_of h) (run (mkDecl None (Some [Added]))) = true /\
+  map o_fired (run (mkDecl None None)) = [[]; [Modified]; [Added]; [Deleted]] /\
+  P_decl jq_obj (mkDecl None None) true listed (map change_of h) (run (mkDecl None None)) = true /\
+  map o_fired (run (mkDecl (Some [Deleted; Deleted]) (Some [Added]))) = [[]; []; []; [Deleted]] /\
+  P_decl jq_obj (mkDecl (Some [Deleted; Deleted]) (Some [Added])) true listed (map change_of h)
+         (run (mkDecl (Some [Deleted; Deleted]) (Some [Added]))) = true.
+Proof. cbv zeta. repeat split; vm_compute; reflexivity. Qed.
 
 (* non-vacuity.  (1) C08_partial's hypotheses are met by a non-trivial history: filter
    `{r:.spec.replicas}`-like oracle returning one canonical object per state; a change
